@@ -147,6 +147,23 @@ def mps_checks(ctx):
     import yastn, yastn.tn.mps as mps, mgen
     rng = ctx.rng
     nrep = 10 if ctx.tier == 'quick' else 80
+    # dictionaries handed to the Generator stay as they are
+    gops = yastn.operators.SpinlessFermions(sym='U1')
+    params = {'t': 0.5, 'A': [0, 1, 2]}
+    before = repr(sorted(params.items()))
+    gen = mps.Generator(4, gops, parameters=params)
+    ctx.case(dict(kind='generator-parameters'), nontrivial=True)
+    if repr(sorted(params.items())) != before:
+        ctx.violation('mps.Generator(N, operators, parameters=d) changed d: %r -> %r' % (before, sorted(params)), dict(kind='generator-parameters'), family='generator-mutates-parameters')
+    p2 = {'g': 2.0, 'B': [0, 1]}
+    b2 = repr(sorted(p2.items()))
+    try:
+        gen.mpo_from_latex(r"\sum_{j \in B} g n_{j}", parameters=p2)
+        gen.mpo_from_latex(r"\sum_{j \in A} t n_{j}")          # default parameters=None: the Generator's own dictionary
+    except TypeError as e:
+        ctx.violation('Generator.mpo_from_latex raised TypeError: %s' % str(e)[:100], dict(kind='generator-default-parameters'), family='generator-default-parameters')
+    if repr(sorted(p2.items())) != b2:
+        ctx.violation('Generator.mpo_from_latex(parameters=d) changed d', dict(kind='generator-parameters'), family='generator-mutates-parameters')
     for rep in range(nrep):
         fam, sym = rng.choice(mgen.FAMILIES)
         ops = mgen.operators(fam, sym)
@@ -270,6 +287,44 @@ def peps_checks(ctx):
         psi.to_dict(level=2)
         if snap(psi) != sp:
             ctx.violation('Peps query changed the Peps', dict(kind='peps-mutates'))
+        # copies of a container with an ACTIVE patch (infinite lattices): the copy equals its source and is independent of it
+        ipsi = fpeps.product_peps(fpeps.CheckerboardLattice(), ops.vec_n(val=1))
+        s0 = ipsi.sites()[0]
+        ipsi.move_to_patch(s0)
+        ipsi[s0] = 2 * ipsi[s0]
+        for how in ('copy', 'clone', 'shallow_copy'):
+            c = getattr(ipsi, how)()
+            ctx.case(dict(kind='peps-copy-patch', how=how, rep=rep), nontrivial=True)
+            if tgen.snapshot(c[s0]) != tgen.snapshot(ipsi[s0]):
+                ctx.violation('Peps.%s() of a lattice with an active patch differs from its source at the patched site' % how, dict(kind='peps-copy-patch', how=how), family='lattice-copy-patch')
+            elif how != 'shallow_copy':
+                before_src = tgen.snapshot(ipsi[s0])
+                c[s0] = 5 * c[s0]
+                if tgen.snapshot(ipsi[s0]) != before_src:
+                    ctx.violation('item assignment on a patched site of Peps.%s() changed the source' % how, dict(kind='peps-copy-patch-dep', how=how), family='lattice-copy-patch')
+        # two-layer objects: clone() with a separate bra; pending charge swaps of a DoublePepsTensor survive gate application
+        try:
+            bra = psi.copy()
+            p2 = fpeps.Peps2Layers(psi, bra=bra).clone()
+            ctx.case(dict(kind='peps2layers-clone', rep=rep), nontrivial=True)
+            if tgen.snapshot(p2.bra[site]) != tgen.snapshot(bra[site]) or tgen.snapshot(p2.ket[site]) != tgen.snapshot(psi[site]):
+                ctx.violation('Peps2Layers.clone() differs from its source', dict(kind='peps2layers-clone'), family='peps2layers-clone')
+        except TypeError as e:
+            ctx.violation('Peps2Layers(ket, bra=other).clone() raised TypeError: %s' % str(e)[:100], dict(kind='peps2layers-clone'), family='peps2layers-clone')
+        dpt = fpeps.Peps2Layers(psi)[site]
+        ch = ops.c().n
+        dpt.add_charge_swaps_(ch, axes=['k4', 'b0'])
+        sw_before = dict(dpt.swaps)
+        gate = ops.n().add_leg(s=1, axis=2)
+        out = dpt.apply_gate_on_ket(gate, dirn='l')
+        ctx.case(dict(kind='doublepeps-apply-gate', rep=rep), nontrivial=True)
+        if dict(dpt.swaps) != sw_before:
+            ctx.violation('DoublePepsTensor.apply_gate_on_ket (returns a copy) changed the pending charge swaps of its receiver: %r -> %r' % (sw_before, dict(dpt.swaps)),
+                          dict(kind='doublepeps-apply-gate'), family='doublepeps-apply-gate-mutates')
+        out.add_charge_swaps_(ch, axes=['b1'])
+        if dict(dpt.swaps) != sw_before:
+            ctx.violation('adding charge swaps to the tensor returned by apply_gate_on_ket changed the receiver (shared dictionary)', dict(kind='doublepeps-apply-gate-shared'),
+                          family='doublepeps-apply-gate-mutates')
 
 
 def run(ctx):
